@@ -42,8 +42,9 @@ func (k Keeper) CalculateBaseFee(ctx sdk.Context) *big.Int {
 
 	gasLimit := new(big.Int).SetUint64(math.MaxUint64)
 
-	// NOTE: a MaxGas equal to -1 means that block gas is unlimited
-	if consParams != nil && consParams.Block != nil && consParams.Block.MaxGas > -1 {
+	// NOTE: a MaxGas equal to -1 or 0 means that block gas is unlimited
+	// (see baseapp.GetMaximumBlockGas)
+	if consParams != nil && consParams.Block != nil && consParams.Block.MaxGas > 0 {
 		gasLimit = big.NewInt(consParams.Block.MaxGas)
 	}
 
@@ -55,6 +56,11 @@ func (k Keeper) CalculateBaseFee(ctx sdk.Context) *big.Int {
 	}
 
 	parentGasTarget := parentGasTargetBig.Uint64()
+	if parentGasTarget == 0 {
+		// block gas limit below the elasticity multiplier: there is no
+		// target to measure against, keep the base fee
+		return new(big.Int).Set(parentBaseFee)
+	}
 	baseFeeChangeDenominator := new(big.Int).SetUint64(uint64(params.BaseFeeChangeDenominator))
 
 	// If the parent gasUsed is the same as the target, the baseFee remains
